@@ -71,7 +71,7 @@ pub enum Event {
     Alloc { charge: usize, ok: bool, allocated: usize, next_gc: usize, limit: usize, live_bytes: Option<usize> },
     Dealloc { charge: usize, allocated: usize },
     GcBegin { objects: usize, allocated: usize },
-    GcEnd { objects: usize, allocated: usize },
+    GcEnd { objects: usize, allocated: usize, live_bytes: Option<usize> },
     Clear { allocated: usize },
 }
 
